@@ -917,6 +917,7 @@ async def hostile_case(backend, seed, counters):
 def run_e2e_shard(prop, spec):
     """dispatch of a shard {"mode": "e2e", "e2e": <case>, "backend":..., "seed":...}; standard worker result"""
     counters = {}
+    env.setup_paths()  # the tree under test and, where the genuine modules are missing, the lmdb / msgpack stand-ins
     case, backend, seed = spec["e2e"], spec.get("backend", "sql"), int(spec.get("seed", 0))
     if case == "c20":
         v, nt, inc = run(c20_case, backend, spec.get("workers", 2), seed, counters, nevents=spec.get("nevents", 40), only_ephemeral=spec.get("only_ephemeral", False),
@@ -949,11 +950,21 @@ def run_e2e_shard(prop, spec):
     elif case == "crossworker":
         v, nt, inc = run(crossworker_case, backend, spec.get("workers", 2), seed, counters)
         main = "e2e_crossworker_resubmissions"
+    elif case == "c10":
+        v, nt, inc = run(c10_case, spec.get("workers", 3), seed, counters, nevents=spec.get("nevents", 150))
+        main = "e2e_records_checked"
+    elif case == "c08":
+        v, nt, inc = run(c08_case, backend, spec.get("workers", 2), seed, counters)
+        main = "e2e_worker_readbacks"
+    elif case == "c18":
+        v, nt, inc = run(c18_case, backend, seed, counters)
+        main = "e2e_accept_decisions"
     elif case == "c16":
         v, nt, inc = run(c16_case, backend, spec.get("workers", 2), seed, counters)
         main = "e2e_allow_list_decisions"
     else:
         raise ValueError(case)
+    v = [x for x in v if x.get("prop") in (None, prop) or prop not in ("C08", "C09")]
     seen, out = {}, []
     for x in v:
         seen[x["key"]] = seen.get(x["key"], 0) + 1
@@ -1527,6 +1538,241 @@ async def crossworker_case(backend, workers, seed, counters):
                 if again and again[2] is False and str(again[3]).startswith("duplicate"):
                     V("refused-as-duplicate-but-not-stored/" + label, "the superseded version %s (removed through worker %s) was refused by worker %s as %r although it is in no store"
                       % (first["id"][:12], w2, w1, again[3]))
+    finally:
+        for c in conns:
+            await c.close()
+        srv.stop()
+    return viols, nontrivial, inconcl
+
+
+# ---------------------------------------------------------------------------------------------------
+# C10: the LMDB keyspace after several worker PROCESSES wrote to one environment at the same time
+# ---------------------------------------------------------------------------------------------------
+async def c10_case(workers, seed, counters, nevents=150):
+    from .checks import c10
+    from . import dump
+
+    r = random.Random(seed)
+    viols, nontrivial, inconcl = [], [], []
+    srv = e2e.Server(backend="lmdb", workers=workers, overrides={"garbage_collector": {"collect_interval": 2}})
+    rp = {"mode": "e2e", "e2e": "c10", "backend": "lmdb", "workers": workers, "seed": seed}
+    keys = [ref.key_from_seed("e2e-c10-%d" % i) for i in range(3)]
+    conns = []
+    try:
+        srv.start()
+        pubs = await spread(srv, "p", 1, 24)
+        conns.extend(pubs)
+        byw = {}
+        for c in pubs:
+            byw.setdefault(c.worker, c)
+        if len(byw) < min(2, workers):
+            inconcl.append("e2e c10: all connections landed on one worker process")
+        writers = list(byw.values())
+        now = int(time.time())
+        sent = []
+        # the SAME addresses are updated through different workers at the same time, events are deleted by their
+        # authors through another worker than the one that stored them, some expire while the collector runs
+        for i in range(nevents):
+            k = r.choice(keys)
+            roll = r.random()
+            if roll < 0.35:
+                ev = ref.make_event(k, kind=r.choice([10002, 0, 3]), created_at=now - 500 + i, tags=[["r", "wss://%d" % i], ["t", "x"]], content="c10 repl %d" % i)
+            elif roll < 0.6:
+                ev = ref.make_event(k, kind=30000, created_at=now - 500 + i, tags=[["d", r.choice(["a", "ab", ""])], ["t", r.choice(["a", "ab"])], ["t", "a"], ["p", keys[0].pk]], content="c10 param %d" % i)
+            elif roll < 0.75 and sent:
+                tgt = r.choice(sent)
+                ev = ref.make_event(next(x for x in keys if x.pk == tgt["pubkey"]), kind=5, created_at=now - 400 + i, tags=[["e", tgt["id"]], ["e", r.choice(sent)["id"]]], content="c10 del %d" % i)
+            elif roll < 0.85:
+                ev = ref.make_event(k, kind=1, created_at=now - 500 + i, tags=[["expiration", str(now + r.choice([-5, 2, 4, 3600]))], ["t", "q" * r.choice([1, 300])]], content="c10 exp %d" % i)
+            else:
+                ev = ref.make_event(k, kind=1, created_at=now - 500 + i, tags=[["t", r.choice(["a", "a\x00b", "é"])], ["e", "00" * 32], ["t", "a"]], content="c10 reg %d" % i)
+            sent.append(ev)
+            await r.choice(writers).send(["EVENT", ev])
+            if i % 25 == 24:
+                await asyncio.sleep(0.3)
+        await e2e.settle(conns, quiet=1.5, timeout=90)
+        await asyncio.sleep(5.0)  # collector passes and the writer threads of every process
+        for c in conns:
+            await c.close()
+        del conns[:]
+        srv.stop()
+        d = dump.dump_lmdb(os.path.join(srv.dir, "lmdb"))
+        problems = c10.check_keyspace(d)
+        bump(counters, "e2e_keyspaces_walked")
+        counters["e2e_writer_processes"] = max(counters.get("e2e_writer_processes", 0), len(byw))
+        bump(counters, "e2e_records_checked", len(d["events"]))
+        bump(counters, "e2e_keys_checked", len(d["keys"]))
+        nontrivial.append(h(["e2e-c10", workers, len(byw)]))
+        for kind, msg in problems[:5]:
+            viols.append({"key": "e2e/lmdb/%s/%d-writer-processes" % (kind, len(byw)),
+                          "msg": "[e2e lmdb, %d worker processes writing to one environment] after %d events (replacements of the same addresses, deletions and expirations through different workers): %s"
+                                 % (workers, nevents, msg), "replay": rp})
+    finally:
+        for c in conns:
+            await c.close()
+        srv.stop()
+    return viols, nontrivial, inconcl
+
+
+# ---------------------------------------------------------------------------------------------------
+# C08 / C09: what one worker deleted or superseded is served by no worker any more (REQ and HTTP)
+# ---------------------------------------------------------------------------------------------------
+async def c08_case(backend, workers, seed, counters):
+    r = random.Random(seed)
+    viols, nontrivial, inconcl = [], [], []
+    srv = e2e.Server(backend=backend, workers=workers)
+    rp = {"mode": "e2e", "e2e": "c08", "backend": backend, "workers": workers, "seed": seed}
+    alice, bob = ref.key_from_seed("e2e-c08-alice"), ref.key_from_seed("e2e-c08-bob")
+    conns = []
+    seqn = [0]
+
+    def V(key_, msg):
+        viols.append({"key": "e2e/%s/%s" % (backend, key_), "msg": "[e2e %s, %d worker processes] %s" % (backend, workers, msg), "replay": rp,
+                      "prop": "C09" if key_.startswith("superseded") else "C08"})
+
+    async def submit(c, ev):
+        n0 = await c.send(["EVENT", ev])
+        fr = await c.wait_for(lambda fr: [m for m in fr if isinstance(m, list) and m[:1] == ["OK"]], timeout=30, since=n0)
+        return bool(fr and fr[-1][2] is True)
+
+    async def served(c, ids):
+        seqn[0] += 1
+        sid = "q%d" % seqn[0]
+        n0 = await c.send(["REQ", sid, {"ids": ids}])
+        await c.wait_for(lambda fr: any(isinstance(m, list) and m[:2] == ["EOSE", sid] for m in fr), timeout=30, since=n0)
+        await c.send(["CLOSE", sid])
+        return {m[2].get("id") for _, m in event_frames(c, sid)}
+
+    def http_all(eid, n=8):
+        """GET /e/<id> several times (the kernel spreads the requests over the workers): set of status codes"""
+        out = set()
+        for _ in range(n):
+            try:
+                out.add(srv.http_get("/e/" + eid)[0])
+            except Exception as e:
+                out.add(type(e).__name__)
+        return out
+
+    try:
+        srv.start()
+        peers = await spread(srv, "c", 1, 24)
+        conns.extend(peers)
+        byw = {}
+        for c in peers:
+            byw.setdefault(c.worker, c)
+        if len(byw) < 2 and workers > 1:
+            inconcl.append("e2e c08: all connections landed on one worker process")
+        ws = list(byw.values())
+        now = int(time.time())
+        mine = [ref.make_event(alice, kind=1, created_at=now - 100 + i, tags=[["t", "x"]], content="alice %d %d" % (seed, i)) for i in range(4)]
+        theirs = [ref.make_event(bob, kind=1, created_at=now - 100 + i, tags=[["t", "x"]], content="bob %d %d" % (seed, i)) for i in range(3)]
+        old_v = ref.make_event(alice, kind=10002, created_at=now - 90, tags=[["r", "wss://old"]], content="old version")
+        for i, ev in enumerate(mine + theirs + [old_v]):
+            await submit(ws[i % len(ws)], ev)
+        # everybody has looked at everything before (whatever a worker may remember, it has seen it)
+        for c in ws:
+            await served(c, [e["id"] for e in mine + theirs + [old_v]])
+        for ev in mine + theirs + [old_v]:
+            http_all(ev["id"], 4)
+        # alice deletes two of her own and tries one of bob's, through ONE worker; a newer version supersedes old_v through another
+        deletion = ref.make_event(alice, kind=5, created_at=now - 10, tags=[["e", mine[0]["id"]], ["e", mine[1]["id"]], ["e", theirs[0]["id"]]], content="del")
+        new_v = ref.make_event(alice, kind=10002, created_at=now - 20, tags=[["r", "wss://new"]], content="new version")
+        ok_d = await submit(ws[0], deletion)
+        ok_n = await submit(ws[-1], new_v)
+        await asyncio.sleep(1.5)
+        if not (ok_d and ok_n):
+            inconcl.append("e2e c08: the deletion / the newer version was not accepted")
+            return viols, nontrivial, inconcl
+        gone = [mine[0], mine[1], old_v]
+        stay = mine[2:] + theirs + [new_v, deletion]
+        for w, c in byw.items():
+            got = await served(c, [e["id"] for e in gone + stay])
+            bump(counters, "e2e_worker_readbacks")
+            nontrivial.append(h(["e2e-c08", backend, c is ws[0]]))
+            for e in gone:
+                if e["id"] in got:
+                    V(("deleted-still-served/req" if e["kind"] == 1 else "superseded-still-served/req") + ("/other-worker" if c is not ws[0] else "/same-worker"),
+                      "worker %s still returns %s although %s through another connection" % (w, "alice's deleted event" if e["kind"] == 1 else "the superseded version", "her deletion was accepted" if e["kind"] == 1 else "a newer version was accepted"))
+            for e in stay:
+                if e["id"] not in got:
+                    V("foreign-or-unreferenced-removed/req", "worker %s no longer returns event %s (kind %d of %s) that no accepted deletion of its author references" % (w, e["id"][:12], e["kind"], "bob" if e["pubkey"] == bob.pk else "alice"))
+        for e in gone:
+            st = http_all(e["id"])
+            bump(counters, "e2e_http_readbacks")
+            if 200 in st:
+                V("deleted-still-served/http" if e["kind"] == 1 else "superseded-still-served/http", "GET /e/%s answered %r after the %s (requests are spread over the worker processes)" % (e["id"][:12], sorted(map(str, st)), "author's deletion" if e["kind"] == 1 else "newer version"))
+        for e in stay:
+            st = http_all(e["id"], 4)
+            if st != {200}:
+                V("foreign-or-unreferenced-removed/http", "GET /e/%s answered %r for an event nothing removed" % (e["id"][:12], sorted(map(str, st))))
+    finally:
+        for c in conns:
+            await c.close()
+        srv.stop()
+    return viols, nontrivial, inconcl
+
+
+# ---------------------------------------------------------------------------------------------------
+# C18: the limiter on the real accept / command path (real clock: only verdicts that no timing can fake)
+# ---------------------------------------------------------------------------------------------------
+async def c18_case(backend, seed, counters):
+    viols, nontrivial, inconcl = [], [], []
+    N_ACC, N_REQ = 6, 3
+    srv = e2e.Server(backend=backend, workers=1, overrides={"rate_limits": {"ip": {"ACCEPT": "%d/minute" % N_ACC, "REQ": "%d/minute" % N_REQ}}})
+    rp = {"mode": "e2e", "e2e": "c18", "backend": backend, "seed": seed}
+    conns = []
+
+    def V(key_, msg):
+        viols.append({"key": "e2e/%s" % key_, "msg": "[e2e %s] %s" % (backend, msg), "replay": rp})
+
+    try:
+        t0 = time.time()
+        srv.start()  # (the readiness probes of the rig are plain TCP connects, not websocket accepts)
+        admitted, refused = [], 0
+        for i in range(N_ACC + 6):
+            try:
+                c = await e2e.Client(srv, "a%d" % i).connect(timeout=10)
+            except Exception:
+                refused += 1
+                continue
+            conns.append(c)
+            # a refused accept shows as an immediate close (1013)
+            await asyncio.sleep(0.15)
+            if c.closed is not None:
+                refused += 1
+            else:
+                admitted.append(c)
+        took = time.time() - t0
+        bump(counters, "e2e_accept_decisions", N_ACC + 6)
+        nontrivial.append(h(["e2e-c18", backend, "accept"]))
+        if took < 50:  # all attempts inside one interval of the rule
+            if len(admitted) > N_ACC:
+                V("over-admit/ACCEPT", "%d websocket connections from one address were accepted within %.1f s under the rule ACCEPT %d/minute" % (len(admitted), took, N_ACC))
+            if len(admitted) < N_ACC:
+                V("over-block/ACCEPT", "only %d websocket connections were accepted within %.1f s although the rule allows %d per minute" % (len(admitted), took, N_ACC))
+        else:
+            inconcl.append("e2e c18: the accept attempts took %.0f s, longer than the rule's interval" % took)
+        if admitted:
+            c = admitted[0]
+            t1 = time.time()
+            answered, limited = 0, 0
+            for i in range(N_REQ + 3):
+                n0 = await c.send(["REQ", "r%d" % i, {"kinds": [1], "limit": 1}])
+                fr = await c.wait_for(lambda fr: [m for m in fr if isinstance(m, list) and (m[:2] == ["EOSE", "r%d" % i] or m[:1] == ["NOTICE"])], timeout=40, since=n0)
+                if fr and fr[-1][0] == "EOSE":
+                    answered += 1
+                elif fr:
+                    limited += 1
+            took = time.time() - t1
+            bump(counters, "e2e_command_decisions", N_REQ + 3)
+            nontrivial.append(h(["e2e-c18", backend, "req"]))
+            if took < 50:
+                if answered > N_REQ:
+                    V("over-admit/REQ", "%d REQs of one connection were answered within %.1f s under the rule REQ %d/minute" % (answered, took, N_REQ))
+                if answered < N_REQ:
+                    V("over-block/REQ", "only %d REQs were answered within %.1f s although the rule allows %d per minute (%d refused)" % (answered, took, N_REQ, limited))
+            else:
+                inconcl.append("e2e c18: the REQs took %.0f s (throttling), longer than the rule's interval" % took)
     finally:
         for c in conns:
             await c.close()
